@@ -106,8 +106,11 @@ Next == (\E in \in Inputs : Request(in)) \/ Step \/ Flush
 Spec == Init /\ [][Next]_vars
 
 View == <<e, phase, nreq, g, obs>>
-\* one line per generated transition that completes a request: the client history that reaches it
-Emit == (phase' = "idle" /\ phase = "flush") => PrintT(<<"MBT", ToJson([mode |-> Mode, hist |-> hist'])>>)
+\* One line per generated transition that completes a request, and one per transition that makes an external call
+\* (histories that differ only in an external result can converge to one view-state at once - e.g. a RELOAD whose result
+\* is refused - and would otherwise be emitted only once): the client history that reaches it, for replay on the real engine.
+Emit == ((phase' = "idle" /\ phase = "flush") \/ (phase = "run" /\ NextCall # "")) =>
+           PrintT(<<"MBT", ToJson([mode |-> Mode, hist |-> hist'])>>)
 
 S == e.s
 (* ---- C03 *)
